@@ -29,7 +29,7 @@ PRIMES = [7, 11, 13, 46337]
 MODELQ = 46337
 SPEC_FILES = ["Algebra.tla", "AlgebraMC.tla", "AlgebraTrace.tla"]
 MC_INVARIANTS = ["ChooseLaws", "ChooseEarlyReturn", "RationalLaw", "FieldLagrangeLaw", "ReconstructLaw", "AcceptLaw", "DetectLaw",
-                 "TranscriptionLaw", "BelowThresholdLaw", "MomentLaw", "BigMomentLaw", "BigSetsOK", "HelperLaws"]
+                 "TranscriptionLaw", "BelowThresholdLaw", "MomentLaw", "BigMomentLaw", "BigSetsOK", "HelperLaws", "SeqLaws"]
 
 
 BIGQ = 257     # prime > every n of the large DKGs: field of the verdict model for those
@@ -39,13 +39,13 @@ def params(tr):
     if tr == "quick":
         return dict(MaxN=6, VecN=8, FullMax=1400, nsample=4, RecN=8, rec_reps=2, DkgN=5, dkg_reps=2, ps_all_subsets_n=5, ps_sample=10, workers=8,
                     big_sizes=[2, 3, 5, 8, 13, 16, 20, 21, 22, 32, 48, 64], rand_sizes=[4, 17, 21, 22, 33, 64],
-                    big_nt=[(24, 22), (32, 17), (40, 40)], big_dkg=[(22, 21), (40, 40)],
+                    big_nt=[(24, 22), (32, 17), (40, 40)], big_dkg=[(22, 21), (40, 40)], seq_plans=[(4, 3, 5, 2), (3, 2, 4, 4)], seq_reps=2,
                     big_choose=[(n, k) for n in (12, 16) for k in range(0, n + 2)] +
                                [(20, 10), (21, 20), (22, 21), (22, 11), (24, 22), (32, 30), (40, 39), (40, 38), (64, 2), (64, 62), (256, 2), (256, 254)])
     return dict(MaxN=6, VecN=8, FullMax=120000, nsample=12, RecN=8, rec_reps=8, DkgN=6, dkg_reps=8, ps_all_subsets_n=6, ps_sample=0, workers=8,
                 big_sizes=list(range(2, 65)) + [65, 96, 128, 200, 256], rand_sizes=[3, 9, 16, 17, 20, 21, 22, 23, 40, 64, 100, 150, 256],
                 big_nt=[(21, 21), (22, 21), (24, 22), (32, 17), (40, 40), (64, 33), (100, 67), (256, 171)],
-                big_dkg=[(21, 21), (22, 21), (24, 22), (40, 40)],
+                big_dkg=[(21, 21), (22, 21), (24, 22), (40, 40)], seq_plans=[(4, 3, 5, 2), (3, 2, 4, 4), (5, 3, 4, 2), (5, 4, 3, 3), (4, 2, 6, 3)], seq_reps=6,
                 big_choose=[(n, k) for n in range(9, 21) for k in range(0, n + 2)] +
                            [(21, 20), (22, 21), (22, 11), (23, 11), (24, 22), (26, 24), (32, 30), (32, 3), (40, 39), (40, 38), (64, 2), (64, 62), (100, 98),
                             (256, 2), (256, 254), (256, 255)])
@@ -70,7 +70,7 @@ def big_constants(p, rng):
         if binom(n, k) * max(n, 1) >= 1 << 31 or binom(n, k) > 3000000:
             raise vlib.CheckError("large choose case (%d,%d) is not affordable" % (n, k))
     return dict(sizes=sorted(p["big_sizes"]), randsets=rands, nt=[list(x) for x in p["big_nt"]], dkg=[list(x) for x in p["big_dkg"]],
-                choose=[list(x) for x in p["big_choose"]])
+                choose=[list(x) for x in p["big_choose"]], seq=[list(x) for x in p["seq_plans"]], seq_schemes=["bls", "ps"])
 
 
 def tla_set(xs):
@@ -78,12 +78,14 @@ def tla_set(xs):
 
 
 def big_defs(big):
-    return ("c_BigSizes == %s\nc_RandSets == %s\nc_BigNT == %s\nc_BigDkg == %s\nc_BigChoose == %s\n"
-            % (tla_set(big["sizes"]), tla_seq(big["randsets"]), tla_set(big["nt"]), tla_set(big["dkg"]), tla_set(big["choose"])))
+    return ("c_BigSizes == %s\nc_RandSets == %s\nc_BigNT == %s\nc_BigDkg == %s\nc_BigChoose == %s\nc_SeqPlans == %s\nc_SeqSchemes == {%s}\n"
+            % (tla_set(big["sizes"]), tla_seq(big["randsets"]), tla_set(big["nt"]), tla_set(big["dkg"]), tla_set(big["choose"]),
+               tla_set(big.get("seq", [])), ", ".join('"%s"' % x for x in big.get("seq_schemes", []))))
 
 
-BIG_CFG = "BigSizes <- c_BigSizes RandSets <- c_RandSets BigNT <- c_BigNT BigDkg <- c_BigDkg BigChoose <- c_BigChoose BigQ = %d" % BIGQ
-NO_BIG = dict(sizes=[], randsets=[], nt=[], dkg=[], choose=[])
+BIG_CFG = ("BigSizes <- c_BigSizes RandSets <- c_RandSets BigNT <- c_BigNT BigDkg <- c_BigDkg BigChoose <- c_BigChoose BigQ = %d "
+           "SeqPlans <- c_SeqPlans" % BIGQ)
+NO_BIG = dict(sizes=[], randsets=[], nt=[], dkg=[], choose=[], seq=[], seq_schemes=[])
 
 
 def tla_seq(xs):
@@ -103,14 +105,14 @@ def tlc_laws(wd, p, rng):
         f.write("CONSTANTS Primes <- c_Primes MaxN = %d VecN = %d FullMax = %d Sample <- c_Sample ModelQ = %d\n %s\nINIT Init\nNEXT Next\n"
                 "INVARIANTS %s\n" % (p["MaxN"], p["VecN"], p["FullMax"], MODELQ, BIG_CFG, " ".join(MC_INVARIANTS)))
     r = vlib.run_tlc("MC_algebra", "MC_algebra.cfg", SPEC_FILES[:2], workdir=wd, timeout=1500,
-                     keep_prints=["CHOOSE", "LAG", "DKGC", "BIGC", "BDEALC", "BCHOOSEC"])
+                     keep_prints=["CHOOSE", "LAG", "DKGC", "BIGC", "BDEALC", "BCHOOSEC", "SEQC"])
     if r.violation:
         raise vlib.CheckError("a law of spec/Algebra.tla is violated in the specification itself (%s); this is not a verdict about "
                               "the code:\n%s" % (r.violation, "\n".join(r.error_trace)[:3000]))
     vec = {}
     for (t, o) in r.prints:
         vec.setdefault(t, []).append(o)
-    for t in ("CHOOSE", "LAG", "DKGC", "BIGC", "BDEALC", "BCHOOSEC"):
+    for t in ("CHOOSE", "LAG", "DKGC", "BIGC", "BDEALC", "BCHOOSEC", "SEQC"):
         if not vec.get(t):
             raise vlib.CheckError("AlgebraMC printed no %s vectors" % t)
     # deterministic order of the case lists (TLC's workers print in any order)
@@ -118,6 +120,7 @@ def tlc_laws(wd, p, rng):
     vec["BIGC"].sort(key=lambda c: (c["cls"], len(c["pts"]), c["pts"]))
     vec["BDEALC"].sort(key=lambda c: (c["n"], c["t"]))
     vec["BCHOOSEC"].sort(key=lambda c: (c["n"], c["k"]))
+    vec["SEQC"].sort(key=lambda c: c["plan"])
     ctx = dict(modelp=sample[0], big=big)      # what AlgebraTrace needs to recompute verdicts and completeness
     return r, vec, ctx, sample
 
@@ -170,7 +173,8 @@ def deal_subsets(n, t, classes, rng):
     return cl, subs
 
 
-def build_job(p, vec, rng):
+def build_job(p, vec, rng, schemes=("bls", "ps")):
+    """schemes: those of which sequences of key generations on the same instances are demanded"""
     choose, lag, dkgc = vec["CHOOSE"], vec["LAG"], vec["DKGC"]
     job = dict(workers=p["workers"], seed=rng.randrange(1 << 30), timeout_ms=60000)
     job["choose"] = [dict(n=c["n"], k=c["k"]) for c in choose]
@@ -193,9 +197,10 @@ def build_job(p, vec, rng):
                     continue
                 case = dict(scheme=scheme, n=n, t=t, pos=c["pos"], off=c["off"], expect=c["expect"], comp=0, ids=[], subs=[], exh=False,
                             msglen=1, seed=rng.randrange(1 << 30))
-                if scheme == "bls" and (rep % 2 == 1 or rng.random() < 0.3):
-                    # TBLS / bls.Verifier take evaluation points from the POSITION in the party list: any ascending identifiers do
-                    case["ids"] = sorted(rng.sample(range(1, 2000), n))
+                if rep % 2 == 1 or rng.random() < 0.3:
+                    # evaluation points are the POSITIONS in the party list (bls.Verifier, and ps.Prover since /repo 0454ff0): any
+                    # ascending identifiers do
+                    case["ids"] = sorted(rng.sample(range(1, 65536), n))
                 if scheme == "ps":
                     case["msglen"] = 1 + (rep + n) % 2
                     case["comp"] = rng.randrange(0, case["msglen"] + 2)     # which component of the PS key is moved off
@@ -230,9 +235,39 @@ def build_job(p, vec, rng):
         for c in vec["BDEALC"]:
             for mode in ("crypto", "seeded"):
                 cl, subs = deal_subsets(c["n"], c["t"], c["classes"], rng)
-                bdeal.append(dict(scheme=scheme, n=c["n"], t=c["t"], mode=mode, classes=cl, subs=subs, msglen=1, seed=rng.randrange(1 << 30)))
+                bdeal.append(dict(scheme=scheme, n=c["n"], t=c["t"], mode=mode, classes=cl, subs=subs, msglen=1, seed=rng.randrange(1 << 30),
+                                  ids=sorted(rng.sample(range(1, 65536), c["n"])) if mode == "seeded" else []))
     job["bdeal"] = bdeal
+    # sequences of key generations on the same instances
+    seq = []
+    for scheme in schemes:
+        for c in vec["SEQC"]:
+            top = max(r["n"] for r in c["runs"])
+            for rep in range(p["seq_reps"]):
+                universe = list(range(1, top + 1)) if rep % 2 == 0 else sorted(rng.sample(range(1, 65536), top))
+                runs = []
+                for r in c["runs"]:
+                    run = dict(n=r["n"], t=r["t"], pos=r["pos"], off=r["off"], expect=r["expect"], comp=rng.randrange(0, 3) if scheme == "ps" else 0,
+                               subs=[], exh=False, seed=rng.randrange(1 << 30), big=False)
+                    if not r["off"]:
+                        run["subs"], run["exh"] = subsets_at_least(r["n"], max(2, r["t"] - 1)), True
+                    runs.append(run)
+                seq.append(dict(scheme=scheme, plan=c["plan"], universe=universe, runs=runs, msglen=1, seed=rng.randrange(1 << 30)))
+    job["seq"] = seq
     return job
+
+
+def probe_job(scheme):
+    """exploratory: two honest key generations on the same instances, short deadline (a run takes milliseconds)"""
+    runs = [dict(n=3, t=2, pos=0, off=False, expect="accept", comp=0, subs=[[1, 2], [2, 3], [1, 2, 3]], exh=False, seed=11 + k, big=False,
+                 probe=True, time_ms=2500) for k in range(2)]
+    return dict(workers=1, seed=1, timeout_ms=2500, seq=[dict(scheme=scheme, plan=[3, 2, 3, 2], universe=[1, 2, 3], runs=runs, msglen=1, seed=1,
+                                                              kind="seqprobe")])
+
+
+def rekeying_supported(rec):
+    runs = rec["runs"]
+    return len(runs) == 2 and all((not x["timeout"]) and x["agree"] and not any(x["errs"]) and not any(x["panics"]) for x in runs)
 
 
 def job_fragments(job):
@@ -257,6 +292,8 @@ def job_fragments(job):
             frags.append(dict(bchoose=[c]))
     for c in job.get("bdeal", []):
         frags.append(dict(bdeal=[c]))
+    for c in job.get("seq", []):
+        frags.append(dict(seq=[c]))
     return frags
 
 
@@ -290,7 +327,7 @@ def validate(wd, trace_path, ctx, name, coverage):
     with open(os.path.join(wd, "AT_%s.tla" % name), "w") as f:
         f.write("---- MODULE AT_%s ----\nEXTENDS AlgebraTrace\nc_P == %s\n%s====\n" % (name, tla_seq(ctx["modelp"]), big_defs(big)))
     with open(os.path.join(wd, "AT_%s.cfg" % name), "w") as f:
-        f.write('CONSTANTS TraceFile = "%s" ModelQ = %d ModelP <- c_P\n %s CheckCoverage = %s\nINIT TInit\nNEXT TNext\n'
+        f.write('CONSTANTS TraceFile = "%s" ModelQ = %d ModelP <- c_P\n %s SeqSchemes <- c_SeqSchemes CheckCoverage = %s\nINIT TInit\nNEXT TNext\n'
                 % (os.path.basename(trace_path), MODELQ, BIG_CFG, "TRUE" if coverage else "FALSE"))
     r = vlib.run_tlc("AT_%s" % name, "AT_%s.cfg" % name, SPEC_FILES, workdir=wd, workers=1, timeout=1500,
                      keep_prints=["VIOL", "DRIFT", "BAD", "END", "COVER"])
@@ -301,16 +338,26 @@ def validate(wd, trace_path, ctx, name, coverage):
 
 def expected_counts(job):
     return dict(choose=2 * len(job.get("choose", [])), lag=4 * len(job.get("lag", [])), rec=len(job.get("rec", [])), dkg=len(job.get("dkg", [])),
-                blag=2 * len(job.get("blag", [])), bchoose=2 * len(job.get("bchoose", [])), bdeal=len(job.get("bdeal", [])))
+                blag=2 * len(job.get("blag", [])), bchoose=2 * len(job.get("bchoose", [])), bdeal=len(job.get("bdeal", [])),
+                seq=sum(1 for c in job.get("seq", []) if c.get("kind", "seq") == "seq"))
 
 
-def execute(drv, job, wd, ctx, name, retry_unusable=True, coverage=False):
-    """run the job on the real code and validate; returns (records, tlc result, viols, drifts)"""
+def execute(drv, job, wd, ctx, name, retry_unusable=True, coverage=False, extra=()):
+    """run the job on the real code and validate; returns (records, tlc result, viols, drifts); `extra`: records of an earlier
+    driver run (the re-keying probes) that are validated along"""
     recs, path = run_driver(drv, job, wd, name)
+    if extra:
+        for r in extra:
+            r = dict(r, id=len(recs) + 1)
+            recs.append(r)
+        with open(path, "w") as f:
+            for r in recs:
+                f.write(json.dumps(r) + "\n")
     want = expected_counts(job)
     got = {}
     for r in recs:
         got[r["k"]] = got.get(r["k"], 0) + 1
+    want["seqprobe"] = len(extra)
     for k, v in want.items():
         if got.get(k, 0) != v:
             raise vlib.CheckError("algebra driver returned %d %s records, expected %d" % (got.get(k, 0), k, v))
